@@ -11,7 +11,7 @@ EXTENDS SoyPO, Json
 CONSTANTS MaxParts, MaxInner, Shard, NShards, Locales
 VARIABLE pcase
 
-Family == {d \in POFamFlat(MaxParts) \cup POFamPlural(MaxInner) : PODomain(POFamBody(d))} \cup POFamInvalid \cup POFamExtra
+Family == {d \in POFamFlat(MaxParts) \cup POFamBrace(MaxParts) \cup POFamPlural(MaxInner) : PODomain(POFamBody(d))} \cup POFamInvalid \cup POFamExtra
 
 Init == pcase \in {d \in Family : POShardOf(d, NShards) = Shard}
 Next == UNCHANGED pcase
@@ -30,7 +30,7 @@ CaseRecord(d) ==
   ELSE LET e == POExtract(m) IN
        [id |-> POFamId(d), parts |-> body, valid |-> TRUE,
         names |-> PONames(body), phstr |-> PlaceholderString(body), key |-> MsgKeyString(body),
-        feat |-> MsgFeature(body),
+        feat |-> IF d.kind = "brace" THEN "literal-braces-in-text" ELSE MsgFeature(body),
         msgid |-> e.msgid, msgid_plural |-> e.msgid_plural, var |-> e.var,
         tr |-> [l \in 1..Len(LocSeq) |->
                   [loc |-> LocSeq[l], names |-> POCatalogueLocales(LocSeq[l]), forms |-> POPluralForms(LocSeq[l]),
